@@ -70,6 +70,7 @@ func (p *c10) Cases(tier string, emit func(interface{})) {
 	}
 	c10SchemaCases(tier, emit)
 	c10JSONCases(emit)
+	c10XMLCases(emit)
 }
 
 type namedInt32 int32
@@ -191,7 +192,7 @@ func c10Sources(kind string) []srcVal {
 			case "1", "true", "yes":
 				b := true
 				s.boo = &b
-			case "0", "false", "np":
+			case "0", "false", "no":
 				b := false
 				s.boo = &b
 			}
@@ -477,6 +478,8 @@ func (p *c10) Run(raw json.RawMessage) eng.Result {
 		return c10RunSchema(c)
 	case "jsontext":
 		return c10RunJSONText(c)
+	case "xmltext":
+		return c10RunXMLText(c)
 	}
 	panic("bad part")
 }
